@@ -129,7 +129,12 @@ func runSignIn(rep *vh.Report, env vh.Env, stacks []*stack, other *sut.AuthStack
 
 		now := time.Now()
 		sess := &sessions.SessionState{AccessToken: tok, RefreshToken: rt, Email: email}
-		if lifePast {
+		lifeZero := lifePast && r.Intn(4) == 0
+		if lifeZero {
+			// a cookie whose lifetime deadline is the zero time (absent field): the lifetime has passed
+			sess.LifetimeDeadline = time.Time{}
+			rep.Count("signin_cookie_with_zero_lifetime_deadline", 1)
+		} else if lifePast {
 			sess.LifetimeDeadline = now.Add(-time.Duration(1+r.Intn(48*60)) * time.Minute).Truncate(time.Second)
 		} else {
 			sess.LifetimeDeadline = now.Add(time.Duration(2+r.Intn(23*60)) * time.Minute).Truncate(time.Second)
